@@ -240,6 +240,23 @@ def gen_binary(rng, cx=False):
                 yield case(op, [scal(rng, da, ca), A(rng, s2, db, cb)], argnum=1, form="operator")
                 yield case(op, [scal(rng, da, ca), scal(rng, db, cb)], argnum=1, form="operator")
                 yield case(op, [scal(rng, da, ca), scal(rng, db, cb)], argnum=0, form="operator")
+    # special scalar operands (exactly 1, 0, -1, 2, one half) of every flavour - Python, NumPy float64 / float32,
+    # complex - on either side of an operator or function, against float64 and float32 arrays
+    specials = [1, 1.0, onp.float64(1.0), onp.float32(1.0), 1 + 0j, onp.complex128(1.0), 0, 0.0, -1, -1.0, 2, 2.0, 0.5, onp.float64(2.0), True]
+    for name in ("multiply", "add", "subtract", "divide", "power"):
+        opn = OPERATORS.get(name)
+        for sp in specials:
+            if not cx and isinstance(sp, (complex, onp.complexfloating)) and name == "power":
+                continue
+            for x in (A(rng, (3,), "pos", cx), A(rng, (2, 2), "pos", cx).astype(onp.complex64 if cx else onp.float32)):
+                if not (name in ("divide",) and sp in (0, 0.0)):
+                    yield case(name, [x, sp], argnum=0, tags=["special_scalar"])
+                    if opn:
+                        yield case(opn, [x, sp], argnum=0, form="operator", tags=["special_scalar"])
+                if not (name == "power" and sp in (0, 0.0, -1, -1.0)) and not (name == "power" and isinstance(sp, bool)):
+                    yield case(name, [sp, x], argnum=1, tags=["special_scalar"])
+                    if opn:
+                        yield case(opn, [sp, x], argnum=1, form="operator", tags=["special_scalar"])
     dt = "complex128" if cx else "float64"
     for name in ("add", "subtract", "multiply", "divide", "true_divide", "power", "maximum", "minimum", "arctan2", "hypot"):
         if cx and name in BIN_NO_COMPLEX:
